@@ -50,7 +50,7 @@ def declare(reg, eng):
     reg.contract("ProcOrState.aio_code", params=["self"], returns="opt:int", awaits=True, effect="aio_code", modifies=[],
                  raises={"JobError": {"when": [], "modifies": []}, "Exception": {"when": [], "modifies": []}})
     reg.contract("Dependency.lock", params=["self"], types={"self": "Dependency"}, fresh="Lock", returns="Lock", modifies=[],
-                 ensures=["result._level == 0", "result.detached == False"])
+                 ensures=["result._level == 0", "result.detached == False", ("ASSUME", "result.ghost_held == False")])
 
     # ---- Locks as a context manager (Lock.__enter__/__exit__ specialised to the receiver class Locks;
     #      justified by Lock.acquire / Lock.release / Locks._release, which are proved under C08/C09)
@@ -72,19 +72,23 @@ def declare(reg, eng):
     eng.load("JobLock.__init__", "scheduler/base.py", inline=True)
     eng.load("JobLock.acquire", "locking.py", qualname="Lock.acquire")       # the inherited body, verified for a JobLock receiver
     reg.contract("JobDependency.lock", params=["self"], types={"self": "JobDependency"}, returns="JobLock", modifies=[],
-                 ensures=["isfresh(result)", "result._level == 0", "result.detached == False", "result.job is self.origin"])
+                 ensures=["isfresh(result)", "result._level == 0", "result.detached == False", "result.job is self.origin",
+                          ("ASSUME", "result.ghost_held == False")])
     reg.contract("JobLock.acquire", params=["self"], types={"self": "JobLock"}, returns="JobLock", effect="lock.acquire",
                  requires=["isint(self._level)"],
                  # a job lock never refuses (no LockError outcome is declared: raising one would fail `noraise`)
                  ensures=["result is self", "implies(old(self._level) == 0, self._level == 1)",
-                          "implies(old(self._level) != 0, self._level == old(self._level))"],
-                 modifies=["self._level"])
+                          "implies(old(self._level) != 0, self._level == old(self._level))",
+                          ("ASSUME", "implies(old(self._level) == 0, self.ghost_held == True)"),
+                          ("ASSUME", "implies(old(self._level) != 0, self.ghost_held == old(self.ghost_held))")],
+                 modifies=["self._level", "self.ghost_held"])
     # R-ready (assumed environment fact, DESIGN section 11): while a job is READY nobody else writes another state to it.  The only
     # foreign writer of Job.state is Job.dependencychanged, which writes READY, or ERROR on a FAIL status; every job dependency
     # of a READY job is DONE (final, R-final) and token dependencies never report FAIL.
     R_READY = "implies(old(job.state) == JobState.READY, job.state == JobState.READY)"
     eng.load("Scheduler.aio_start", "scheduler/base.py")
-    HELD = "length(locks.locks) == %s and forall(k, 0, length(locks.locks), at(locks.locks, k)._level == 1 and not at(locks.locks, k).detached)"
+    HELD = ("length(locks.locks) == %s and forall(k, 0, length(locks.locks), at(locks.locks, k)._level == 1 and not at(locks.locks, k).detached "
+            "and at(locks.locks, k).ghost_held)")
     reg.contract("Scheduler.aio_start", params=["self", "job"], types={"self": "Scheduler", "job": "Job"},
                  returns="opt:JobState", awaits=True, no_replay=True,
                  requires=["not isnone(self.xp.central)"],
@@ -101,7 +105,10 @@ def declare(reg, eng):
                      ("C09", "effect_count('locks.exit') == 1"),
                      ("C09", "effect_before('lock.acquire', 'locks.exit')"),
                  ],
-                 effect_guards={"aio_run": [(("C04", "C08"), HELD % "length(job.dependencies)"),
+                 effect_guards={# leaving the block releases every lock of the group: each of them must be a holding that was really taken
+                                # (a refused token lock must not be released: that would delete somebody else's token file)
+                                "locks.exit": [(("C08", "C09"), "forall(k, 0, length(locks.locks), at(locks.locks, k).ghost_held)")],
+                                "aio_run": [(("C04", "C08"), HELD % "length(job.dependencies)"),
                                             ("C05", "effect('joblock.enter') and not effect('joblock.exit')")]},
                  raises={"AssertionError": {"when": [], "ensures": ["no_effect('lock.acquire')", "no_effect('aio_run')"]}},
                  interference={"shared": SHARED, "rely": [R_READY], "guarantee": []},
@@ -136,7 +143,7 @@ def declare(reg, eng):
     RELY = ["implies(old(job.state).finished(), job.state == old(job.state))", R_READY,
             "job.identifier == old(job.identifier)"]
     eng.load("Scheduler.aio_submit", "scheduler/base.py")
-    reg.contract("Scheduler.aio_submit", params=["self", "job"], types={"self": "Scheduler", "job": "Job"},
+    reg.contract("Scheduler.aio_submit", unreachable_ok=['return JobState.ERROR'], params=["self", "job"], types={"self": "Scheduler", "job": "Job"},
                  returns="JobState", awaits=True, no_replay=True,
                  requires=["not isnone(self.xp.central)", "isstr(job.identifier)",
                            "job.state == JobState.UNSCHEDULED"],      # a Job is submitted once, right after its construction
@@ -156,12 +163,21 @@ def declare(reg, eng):
                      "notify_all": [("C06", "effect_count('write:unfinishedJobs') == 1")],
                      # every write site of Job.state: a final state is only replaced by a final state
                      # (documented exception: DONE -> RUNNING when a live recorded process is adopted)
-                     "write:state": [(("C06", "C07"), "implies(_arg0.state.finished(), _arg1.finished() or _arg1 == JobState.RUNNING)")],
+                     "write:state": [(("C06", "C07"), "implies(_arg0.state.finished(), _arg1.finished() or _arg1 == JobState.RUNNING)"),
+                                     # DONE is only ever written on evidence of success: the success marker exists, or the awaited
+                                     # process returned 0, or aio_start reported DONE (a missing / unknown exit code is a failure)
+                                     (("C06", "C07"), "implies(_arg1 == JobState.DONE, exists_path(job_donepath(_arg0)) or "
+                                                      "(effect_here('aio_code') and effect_result('aio_code') == 0) or "
+                                                      "(effect_here('aio_start') and effect_result('aio_start') == JobState.DONE))")],
                  },
                  raises={"Exception": {"when": []}},
                  interference={"shared": SHARED, "rely": RELY, "guarantee": []},
                  modifies=None, track_writes=["unfinishedJobs", "state"],
-                 loops={"dependency#2": {"no_break": True,
+                 loops={"dependency#1": {"invariants": [
+                            # registration never undercounts: every dependency not yet examined is still counted as unsatisfied
+                            # (so the counter cannot reach 0 - and the job become READY - before all of them were examined)
+                            "job.unsatisfied >= length(job.dependencies) - _i"]},
+                        "dependency#2": {"no_break": True,
                                        "body_post": [("C07", "effect('call_soon') and bm_self(effect_arg('call_soon', 1)) is dependency")]}})
     reg.contracts["experiment.current"]["effect"] = "experiment.current"
 
